@@ -559,6 +559,43 @@ def base_spec():
     return spec_of_cmdoptions(inst.cmdparser.options)
 
 
+def _toml_value(c):
+    v = c['raw'] if 'raw' in c else c['val']
+    if isinstance(v, bool):
+        return 'true' if v else 'false'
+    if isinstance(v, list):
+        return '[' + ', '.join(json.dumps(x) for x in v) + ']'
+    return json.dumps(v)
+
+
+def write_config_files(files):
+    """files = {'toml': {'glob': [...], 'ini': [...]} | None, 'cfg': {...} | None}: pyproject.toml and/or doit.cfg in
+    the current directory, sections GLOBAL and vcmd"""
+    for name in ('pyproject.toml', 'doit.cfg'):
+        if os.path.exists(name):
+            os.remove(name)
+    t = (files or {}).get('toml')
+    if t is not None:
+        with open('pyproject.toml', 'w') as f:
+            f.write('[tool.doit]\n' + ''.join('%s = %s\n' % (k, _toml_value(c)) for k, c in t['glob']))
+            f.write('[tool.doit.commands.vcmd]\n' + ''.join('%s = %s\n' % (k, _toml_value(c)) for k, c in t['ini']))
+    c_ = (files or {}).get('cfg')
+    if c_ is not None:
+        with open('doit.cfg', 'w') as f:
+            if c_['glob']:
+                f.write('[GLOBAL]\n' + ''.join('%s = %s\n' % (k, c['raw']) for k, c in c_['glob']))
+            f.write('[vcmd]\n' + ''.join('%s = %s\n' % (k, c['raw']) for k, c in c_['ini']))
+
+
+def filter_layer(kind, glob, ini):
+    """keep what the file format can hold verbatim"""
+    def ok(k, c):
+        if kind == 'toml':
+            return not ('val' in c and c['val'] is None) and all(ch.isalnum() or ch == '_' for ch in k)
+        return 'raw' in c and bool(c['raw']) and not (set(c['raw']) - INI_SAFE)
+    return {'glob': [e for e in glob if ok(*e)], 'ini': [e for e in ini if ok(*e)]}
+
+
 def impl_main(case, workdir):
     """DoitMain.run(['vcmd'] + argv) with config sections (INI file or API dict) and DOIT_CONFIG"""
     from doit.cmd_base import ModuleTaskLoader
@@ -607,9 +644,17 @@ def impl_main(case, workdir):
             kw = {'config_filenames': ('pyproject.toml',)}
         else:
             extra = {'vcmd': cfg_py(case['ini'])}
-            if case['glob']:
+            if case['glob'] or case['ini_mode'] == 'mixed':
                 extra['GLOBAL'] = cfg_py(case['glob'])
             kw['extra_config'] = extra
+        extra_before = None
+        if case['ini_mode'] == 'mixed':
+            # API dict AND config files at once; the SAME extra_config object goes to every DoitMain of this case
+            import copy
+            extra_before = copy.deepcopy(extra)
+            kw['config_filenames'] = ('pyproject.toml', 'doit.cfg')
+            write_config_files(case.get('prev_files') if case.get('prev_argv') is not None and 'prev_files' in case
+                               else case.get('files'))
         with environ(case['env']), contextlib.redirect_stderr(err):
             if case.get('prev_argv') is not None:
                 # an earlier invocation in the same process (new DoitMain / command objects) must leave no trace
@@ -621,6 +666,9 @@ def impl_main(case, workdir):
                 box['setup'] = []
                 err.seek(0)
                 err.truncate()
+                if case['ini_mode'] == 'mixed':
+                    # the project's files change (or: the caller moves on to another project directory)
+                    write_config_files(case.get('files'))
             try:
                 code = Main(task_loader=make_loader(ns), **kw).run(prefix + ['vcmd'] + list(case['argv']))
             except BaseException as ex:  # noqa
@@ -632,16 +680,26 @@ def impl_main(case, workdir):
     finally:
         os.chdir(old)
     text = err.getvalue()
+    mutated = None
+    if extra_before is not None and extra != extra_before:
+        mutated = {'before': {k: {kk: canon_val(vv) for kk, vv in v.items()} for k, v in extra_before.items()},
+                   'after': {k: {kk: canon_val(vv) for kk, vv in v.items()} for k, v in extra.items()}}
     if code == 0 and box['seen']:
         params, args = box['seen'][0]
         out = {'res': params_obs(names, params, args), 'exit': code}
+        if mutated:
+            out['extra_config_mutated'] = mutated
         if lspec is not None and box['setup']:
             out['setup'] = box['setup'][0]
             out['setup']['ok']['pos'] = list(args)
         return out
     if code == 3 and text.startswith('ERROR:') and 'Traceback' not in text:
-        return {'res': {'err': classify_error(text)}, 'exit': code}
-    return {'res': {'err': 'crash', 'exc': text.strip().split('\n')[-1][:80]}, 'exit': code}
+        out = {'res': {'err': classify_error(text)}, 'exit': code}
+    else:
+        out = {'res': {'err': 'crash', 'exc': text.strip().split('\n')[-1][:80]}, 'exit': code}
+    if mutated:
+        out['extra_config_mutated'] = mutated
+    return out
 
 
 def impl_task(case):
